@@ -980,3 +980,249 @@ pub fn shrink_read(rc: &ReadCase) -> Vec<ReadCase> {
     }
     out
 }
+
+// ------------------------------------------------------------------------------------------- C10
+
+use crate::encode::{self, EncSpec};
+
+#[derive(Clone, Debug, PartialEq, Serialize, Deserialize)]
+pub struct EncCase {
+    pub spec: EncSpec,
+    pub ops: Vec<ROp>,
+    pub read: ReadFaults,
+    pub cached: bool,
+}
+
+fn pseudo_file(spec: &EncSpec) -> PipeCase {
+    PipeCase {
+        kind: spec.kind,
+        chroms: spec
+            .chroms
+            .iter()
+            .map(|c| Chrom {
+                name: c.name.clone(),
+                len: c.len,
+                items: encode::items_of(c),
+            })
+            .collect(),
+        extra_sizes: vec![],
+        opts: Opts {
+            items_per_slot: 4,
+            ..Opts::default()
+        },
+        source: Source::SerialIter,
+        multipass: false,
+        autosql: None,
+        sched: Sched::Calm,
+        sink: SinkFaults::default(),
+        read: ReadFaults::default(),
+        bad: None,
+        mt_threads: 0,
+    }
+}
+
+pub fn gen_c10(rng: &mut Rng) -> EncCase {
+    let spec = encode::gen_spec(rng);
+    let pf = pseudo_file(&spec);
+    let n = rng.range(4, 30) as usize;
+    let mut ops = gen_ops(rng, &pf, n, spec.zooms.len());
+    // always include the full span of the last chromosome in file order (its index entries sit at the very end of the tree)
+    let last = spec
+        .chroms
+        .iter()
+        .enumerate()
+        .max_by_key(|(_, c)| c.id)
+        .map(|(i, _)| i)
+        .unwrap_or(0);
+    ops.push(ROp::Interval {
+        c: last,
+        s: 0,
+        e: spec.chroms[last].len,
+    });
+    if !spec.zooms.is_empty() {
+        ops.push(ROp::Zoom {
+            c: last,
+            s: 0,
+            e: spec.chroms[last].len,
+            level: spec.zooms.len() - 1,
+        });
+    }
+    ops.push(ROp::Summary);
+    EncCase {
+        spec,
+        ops,
+        read: if rng.chance(1, 2) {
+            ReadFaults {
+                short_pm: *rng.pick(&[100u16, 600]),
+                eintr_pm: *rng.pick(&[0u16, 200]),
+                seed: rng.next_u64(),
+            }
+        } else {
+            ReadFaults::default()
+        },
+        cached: rng.chance(1, 2),
+    }
+}
+
+pub fn run_c10(ec: &EncCase) -> RunReport {
+    let mut st = RunStats::default();
+    // an encoder bug must never be reported as a reader bug
+    if let Err(e) = encode::selftest_roundtrip(&ec.spec) {
+        return RunReport {
+            verdict: Verdict::Skip(format!("HARNESS: encoder self-test failed: {}", e)),
+            nontrivial: false,
+            stats: st,
+        };
+    }
+    let enc = encode::encode(&ec.spec);
+    let pf = pseudo_file(&ec.spec);
+    let model = FileModel {
+        kind: ec.spec.kind,
+        chroms: pf.chroms.clone(),
+        zooms: enc.zooms.clone(),
+        summary: Some(enc.summary.unwrap_or((0, 0.0, 0.0, 0.0, 0.0))),
+    };
+    let image = Arc::new(enc.bytes);
+    let sp = &ec.spec;
+    st.classes.push(format!(
+        "{:?} {} {} v{} bpt{} rtree{} order{}",
+        sp.kind,
+        if sp.big_endian { "BE" } else { "LE" },
+        if sp.compress { "zlib" } else { "raw" },
+        sp.version,
+        if sp.chroms.len() as u32 > sp.bpt_block_size { "multi" } else { "leaf" },
+        if sp.chroms.iter().map(|c| c.blocks.len()).sum::<usize>() as u32 > sp.rtree_block_size { "multi" } else { "leaf" },
+        sp.node_order
+    ));
+    for c in &sp.chroms {
+        for b in &c.blocks {
+            if sp.kind == Kind::Wig {
+                *st.counters.entry(format!("section_type_{}", b.section_type)).or_insert(0) += 1;
+            }
+        }
+    }
+    // table and type through GenericBBIRead::open
+    let table = std::panic::catch_unwind(std::panic::AssertUnwindSafe(|| -> Result<(), (String, String)> {
+        let g = bigtools::GenericBBIRead::open(SimRead::new(image.clone(), &ec.read))
+            .map_err(|e| ("open-failed".to_string(), format!("GenericBBIRead::open: {}", e)))?;
+        let (chroms, is_wig): (Vec<bigtools::ChromInfo>, bool) = match &g {
+            bigtools::GenericBBIRead::BigWig(b) => (b.chroms().to_vec(), true),
+            bigtools::GenericBBIRead::BigBed(b) => (b.chroms().to_vec(), false),
+        };
+        if is_wig != (sp.kind == Kind::Wig) {
+            return Err(("wrong-answer".into(), "GenericBBIRead opened the wrong file type".into()));
+        }
+        let mut got: Vec<(String, u32)> = chroms.iter().map(|c| (c.name.clone(), c.length)).collect();
+        got.sort();
+        let mut want: Vec<(String, u32)> = sp.chroms.iter().map(|c| (c.name.clone(), c.len)).collect();
+        want.sort();
+        if got != want {
+            return Err((
+                "wrong-answer".into(),
+                format!("chromosome table {:?} expected {:?}", got, want),
+            ));
+        }
+        if let bigtools::GenericBBIRead::BigBed(mut b) = g {
+            let a = b.autosql().map_err(|e| ("read-error".to_string(), format!("autosql: {}", e)))?;
+            if a != sp.autosql {
+                return Err(("wrong-answer".into(), format!("autosql {:?} expected {:?}", a, sp.autosql)));
+            }
+            let n = b.item_count().map_err(|e| ("read-error".to_string(), format!("item_count: {}", e)))?;
+            let want: u64 = pf.chroms.iter().map(|c| c.items.len() as u64).sum();
+            if n != want {
+                return Err(("wrong-answer".into(), format!("item_count {} expected {}", n, want)));
+            }
+        }
+        Ok(())
+    }));
+    let verdict = match table {
+        Err(p) => viol("reader-panic", panic_message(p)),
+        Ok(Err((c, d))) => viol(&c, d),
+        Ok(Ok(())) => {
+            let v = run_history_on(image.clone(), &model, &ec.ops, &ec.read, ec.cached, &mut st);
+            match v {
+                Verdict::Pass => run_history_on(image.clone(), &model, &ec.ops, &ec.read, !ec.cached, &mut st),
+                v => v,
+            }
+        }
+    };
+    st.steps = ec.ops.len() as u64;
+    st.trace_hash = crate::rng::hash_bytes(&serde_json::to_vec(&ec.ops).unwrap());
+    RunReport {
+        verdict,
+        nontrivial: sp.chroms.iter().map(|c| c.blocks.len()).sum::<usize>() >= 2,
+        stats: st,
+    }
+}
+
+pub fn shrink_c10(ec: &EncCase) -> Vec<EncCase> {
+    let mut out = vec![];
+    let n = ec.ops.len();
+    let mut chunk = (n / 2).max(1);
+    loop {
+        let mut start = 0;
+        while start < n {
+            let end = (start + chunk).min(n);
+            let mut c = ec.clone();
+            c.ops.drain(start..end);
+            out.push(c);
+            start += chunk;
+        }
+        if chunk == 1 {
+            break;
+        }
+        chunk /= 2;
+    }
+    let mut push = |f: &dyn Fn(&mut EncCase)| {
+        let mut c = ec.clone();
+        f(&mut c);
+        if c != *ec {
+            out.push(c);
+        }
+    };
+    push(&|c| c.read = ReadFaults::default());
+    push(&|c| c.spec.zooms.clear());
+    push(&|c| c.spec.compress = false);
+    push(&|c| c.spec.big_endian = false);
+    push(&|c| c.spec.node_order = 0);
+    push(&|c| c.spec.block_gap = 0);
+    push(&|c| c.spec.version = 4);
+    push(&|c| c.spec.bpt_block_size = 256);
+    push(&|c| c.spec.rtree_block_size = 256);
+    // drop chromosomes not referenced by any op
+    for k in 0..ec.spec.chroms.len() {
+        let used = ec.ops.iter().any(|op| match op {
+            ROp::Interval { c, .. } | ROp::Partial { c, .. } | ROp::Move { c, .. } | ROp::Values { c, .. } | ROp::Zoom { c, .. } => *c == k,
+            _ => false,
+        });
+        if !used && ec.spec.chroms.len() > 1 {
+            push(&move |c| {
+                c.spec.chroms.remove(k);
+                for op in &mut c.ops {
+                    match op {
+                        ROp::Interval { c: ci, .. }
+                        | ROp::Partial { c: ci, .. }
+                        | ROp::Move { c: ci, .. }
+                        | ROp::Values { c: ci, .. }
+                        | ROp::Zoom { c: ci, .. } => {
+                            if *ci > k {
+                                *ci -= 1;
+                            }
+                        }
+                        _ => {}
+                    }
+                }
+            });
+        }
+    }
+    for k in 0..ec.spec.chroms.len() {
+        let nb = ec.spec.chroms[k].blocks.len();
+        if nb > 1 {
+            push(&move |c| c.spec.chroms[k].blocks.truncate(nb / 2));
+            push(&move |c| {
+                c.spec.chroms[k].blocks.drain(0..nb / 2);
+            });
+        }
+    }
+    out
+}
